@@ -134,7 +134,9 @@ def make_phase(name, req, behaviour, test_holder):
       # "non-empty" alone could still be an earlier run's entry)
       while not any(t is test_holder['test'] for t in list(h.Test.TEST_INSTANCES.values())):
         time.sleep(0.001)
-      os.kill(os.getpid(), signal.SIGINT)
+      # (to the main thread, as a terminal's Ctrl-C is served: a process-directed signal that the kernel happens to hand to
+      # another thread is only noticed when the main thread next runs bytecode -- here: when the phase has timed out)
+      signal.pthread_kill(threading.main_thread().ident, signal.SIGINT)
       while True:
         time.sleep(0.0005)
     if behaviour == 'abort2':
@@ -337,9 +339,8 @@ def check(case, out):
       bad.append(('phase-after-ctor-failure', 'phase bodies %r ran after a plug constructor failed' % (later,)))
   outcome = [e[1] for e in log if e[0] == 'callback']
   exp = expected_outcome(case)
-  # (an aborted phase is reported as TIMEOUT when the executor looks at it between the termination request and the
-  # thread's actual death -- PhaseExecutorThread.join_or_die() -- which real-time runs hit once in a few thousand; the
-  # run's outcome is C04's subject, C08 judges the plugs)
+  # (a real Ctrl-C sent from inside a phase is, once in a few thousand runs under load, not served until the phase has timed
+  # out -- see DESIGN.md 7.3; the run's outcome under abort is C04's subject, C08 judges the plugs)
   if outcome and outcome[0] != exp and not (exp == 'ABORTED' and outcome[0] == 'TIMEOUT'):
     bad.append(('outcome', 'outcome %s, expected %s for fault %r' % (outcome[0], exp, case['fault'])))
   return bad
